@@ -1,5 +1,8 @@
 """Per-property plans: which MC modules, drivers, demand codes and extra legs decide a property."""
 
+NOT_APPLICABLE = {}
+HOOK_COMMITS = []
+
 COMMON_ASSUMPTIONS = [
     'TLC 1.8 evaluates the specification faithfully; the Json community module parses the ndjson traces '
     '(the trace encoder refuses values it would mangle: non-int32 numbers, fractions, null)',
@@ -12,6 +15,12 @@ import vf
 
 def g09_events(s):
     return ([{'op': 'date.set', 'max': 0}, {'op': 'date.parse', 'in': s, 'rule': 0, 'T': 's'}], None)
+
+
+def g10_events(s):
+    return ([{'op': 'roman.set', 'max': 128, 'fmt': 0}, {'op': 'roman.parse', 'in': s, 'rule': 0, 'T': 's'},
+             {'op': 'roman.parse', 'in': [c + 32 for c in s], 'rule': 0, 'T': 's'},
+             {'op': 'roman.parse', 'in': [c + 32 if i % 2 else c for i, c in enumerate(s)], 'rule': 0, 'T': 'b'}], None)
 
 
 PLANS = {
@@ -58,6 +67,29 @@ PLANS = {
         'drivers': [{'name': 'c15', 'shards': 8}],
         'codes': ['C15.'],
         'rule': 'histories freset/vars/fbuild/vars/fcontains* replayed against the Date state machine (filters capture bounds at build time)',
+        'assumptions': COMMON_ASSUMPTIONS,
+    },
+    'C02': {
+        'mc': [{'module': 'MC_C02', 'what': 'n <= NMax x 128 flag sets: RomanValue(FmtRoman(n,f)) = n by both parser definitions, canonical form laws',
+                'tiers': {'quick': {'env': {'MC_NMAX': '1999'}}, 'thorough': {'env': {'MC_NMAX': '4999'}}}}],
+        'drivers': [{'name': 'c02', 'shards': 8, 'per': 4000, 'tiers': {'thorough': {'shards': 16, 'per': 3000}}}],
+        'codes': ['C02.'],
+        'exhaustive': {'thorough': True},
+        'rule': 'roman.fmtall: one event per n with the outputs, parse-backs and Valid results of all 128 flag subsets, judged against '
+                'FmtRoman (by rule) and ParseRomanRef; roman.paths: MarshalText/String/%R %r %L %l %s under every DefaultFormat. '
+                'quick = all n <= 4000 + boundary tails at every thousand up to 131 999; thorough = all n in [0,130000]',
+        'assumptions': COMMON_ASSUMPTIONS,
+    },
+    'C10': {
+        'legs': [vf.graph_leg('g10', 'Graph_C10', {'quick': {'GRAPH_MAXLEN': '7'}, 'thorough': {'GRAPH_MAXLEN': '8'}}, g10_events,
+                              'every string over {I,V,X,L,C,D,M} up to length 7 (thorough 8): accepted <=> in the group language, value = sum of groups; '
+                              'lower/mixed case, []byte, Valid, UnmarshalText agree (anomalies empty); MC_C10: two parser definitions agree, parse unambiguous',
+                              mc_module='MC_C10')],
+        'drivers': [{'name': 'c10', 'shards': 8}],
+        'codes': ['C10.'],
+        'exhaustive': {'quick': True, 'thorough': True},
+        'rule': 'graph: complete enumeration by TLC; events: all 256 byte values at every position of valid numerals, insertions, all case patterns, '
+                'grammar-directed numerals in random case, random letter strings, limit and rule sweeps, string/[]byte, Valid alongside the parser',
         'assumptions': COMMON_ASSUMPTIONS,
     },
 }
